@@ -80,6 +80,8 @@ func (n *CondNode) evalNonTime(p *Point) bool {
 		return true
 	case "bool":
 		return n.Val
+	case "opaque":
+		return false // a field compared with a duration: never true for numeric fields
 	case "tag":
 		v := p.Tags[n.Name]
 		switch n.Op {
@@ -268,8 +270,20 @@ func genCond(r *core.Rand, start int64) (*CondNode, []int64) {
 	for i := 0; i < nTime; i++ {
 		parts = append(parts, genTimeLeaf(r, &bounds, start))
 	}
+	if r.Chance(1, 25) {
+		// a predicate whose folded form prints as text the parser rejects (the most negative
+		// duration): SetTimeRange's error path
+		parts = append(parts, &CondNode{Kind: "opaque", Text: r.Pick([]string{"n > -9223372036854775807ns - 1ns", "value < -9223372036854775807ns - 1ns"})})
+	}
 	if len(parts) == 0 {
 		return nil, nil
+	}
+	if len(parts) > 1 {
+		for i, k := range parts {
+			if k.Kind == "or" {
+				parts[i] = &CondNode{Kind: "paren", Kids: []*CondNode{k}}
+			}
+		}
 	}
 	// shuffle and optionally group some adjacent parts into a parenthesised AND group
 	perm := r.Perm(len(parts))
@@ -497,6 +511,9 @@ func evalAST(e influxql.Expr, p *Point) (bool, *evalErr) {
 		if !ok {
 			return false, &evalErr{"unexpected operand: " + x.String()}
 		}
+		if onlyDurations(x.RHS) {
+			return false, nil // a numeric field compared with a duration is never true
+		}
 		switch rhs := x.RHS.(type) {
 		case *influxql.StringLiteral:
 			v := p.Tags[ref.Val]
@@ -526,6 +543,18 @@ func evalAST(e influxql.Expr, p *Point) (bool, *evalErr) {
 		return false, &evalErr{"unexpected predicate: " + x.String()}
 	}
 	return false, &evalErr{fmt.Sprintf("unexpected node %T: %s", e, e.String())}
+}
+
+func onlyDurations(e influxql.Expr) bool {
+	switch x := e.(type) {
+	case *influxql.DurationLiteral:
+		return true
+	case *influxql.ParenExpr:
+		return onlyDurations(x.Expr)
+	case *influxql.BinaryExpr:
+		return (x.Op == influxql.ADD || x.Op == influxql.SUB) && onlyDurations(x.LHS) && onlyDurations(x.RHS)
+	}
+	return false
 }
 
 func countNodes(e influxql.Expr) int {
@@ -619,6 +648,10 @@ func (C18) Exec(pi interface{}) *core.RunResult {
 			start, end = start.UTC(), end.UTC()
 		}
 		var rerr error
+		condBefore := ""
+		if stmt.Condition != nil {
+			condBefore = exprString(stmt.Condition)
+		}
 		verifhook.BeginOp(opBudget)
 		pan := core.Guard(func() { rerr = stmt.SetTimeRange(start, end) })
 		res.Steps += verifhook.EndOp()
@@ -631,6 +664,14 @@ func (C18) Exec(pi interface{}) *core.RunResult {
 			return false
 		}
 		if rerr != nil {
+			// An error is inherited, not SetTimeRange's own, when the statement's condition printed
+			// before the call is text the parser rejects (print/parse asymmetry, C02/C08 territory)
+			if condBefore != "" {
+				if _, perr := influxql.ParseExpr(condBefore); perr != nil {
+					res.Probe("error-inherited-from-unparseable-condition")
+					return true
+				}
+			}
 			res.Violate("settimerange-error", "SetTimeRange returned an error for a representable window: "+rerr.Error()+"\n"+ctx())
 			return false
 		}
@@ -707,6 +748,7 @@ func (C18) Exec(pi interface{}) *core.RunResult {
 
 	lastTickWindowEnd := int64(0)
 	haveTick := false
+	ticks := 0
 	for h.Len() > 0 && applied < p.Windows+8 {
 		ev := heap.Pop(h).(simEvent)
 		// when nothing is runnable the clock jumps to the next event
@@ -715,6 +757,10 @@ func (C18) Exec(pi interface{}) *core.RunResult {
 		switch ev.kind {
 		case "tick":
 			if applied >= p.Windows {
+				continue
+			}
+			ticks++
+			if ticks > p.Windows+16 {
 				continue
 			}
 			base := now
